@@ -44,6 +44,8 @@ void h_create_arrays_b(void)
             else __CPROVER_assert((c->type & 0xFF) == cJSON_String && c->valuestring != NULL && c->valuestring != strs[i] && c->valuestring[0] == sbuf[i][0], "C06 string array values in order (owned copies)");
             c = c->next;
         }
+#if !defined(CA_COUNT) || (CA_COUNT) >= 0
         VF_COVER(count >= 0);
+#endif
     }
 }
